@@ -460,6 +460,20 @@ def cmdModinit (args : List String) : String :=
     ",".intercalate ((DDP.Modules.initSeq g fuel.toNat! (nums imports)).map toString)
   | _ => "bad-request"
 
+/-- `visible <name>:<0/1 public>,… <listed names or ->`: the names an import makes visible, or `error` -/
+def cmdVisible (args : List String) : String :=
+  match args with
+  | [decls, listed] =>
+    let ds : List DDP.Modules.Decl := (decls.splitOn ",").filterMap fun e =>
+      match e.splitOn ":" with
+      | [n, p] => some ⟨n, p == "1"⟩
+      | _ => none
+    let l : Option (List String) := if listed == "-" then none else some (listed.splitOn ",")
+    match DDP.Modules.visible ds l with
+    | some ns => "visible " ++ ",".intercalate ns
+    | none => "error"
+  | _ => "bad-request"
+
 /-- `sortaliases <len>.<gen>.<refs>;…`: keys in the order the candidates are tried;
 `resolve <len>.<gen>.<refs>.<fits>;…`: index of the selected candidate or `none` -/
 def parseCands (spec : String) : List DDP.Resolve.Cand :=
@@ -477,6 +491,44 @@ def cmdSortAliases (args : List String) : String :=
 def cmdResolve (args : List String) : String :=
   match args with
   | [spec] => (match DDP.Resolve.select (parseCands spec) with | some c => s!"{c.len}.{c.gen}.{c.refs}" | none => "none")
+  | _ => "bad-request"
+
+/-! ### alias matching at a call site (C09) -/
+def parseMTok (s : String) : Option DDP.AliasMatch.Tok :=
+  match s.splitOn "." with
+  | [k, i] =>
+    let kind : Option DDP.AliasMatch.Kind := match k with
+      | "n" => some .num | "l" => some .lit | "m" => some .negate | "L" => some .lparen | "R" => some .rparen | "o" => some .other
+      | _ => none
+    kind.map (fun k => ⟨k, i.toNat!⟩)
+  | _ => none
+
+def parseMPat (s : String) : Option DDP.AliasMatch.Pat :=
+  match s.toList with
+  | 'p' :: rest => some (.param (String.ofList rest).toNat!)
+  | 'w' :: rest => (parseMTok (String.ofList rest)).map .word
+  | _ => none
+
+/-- `aliasmatch <pattern> <tokens>`: `nomatch`, or `match rest=<n> <name>=<start>+<len>;…` (also what the
+argument loop of checkAlias cuts out: `cut <name>=<start>+<len>;…`) -/
+def cmdAliasMatch (args : List String) : String :=
+  match args with
+  | [ps, ts] =>
+    let pat := (ps.splitOn ",").filterMap parseMPat
+    let toks := if ts == "-" then [] else (ts.splitOn ",").filterMap parseMTok
+    let showB (bs : List DDP.AliasMatch.Binding) : String :=
+      -- positions: walk pattern and bindings together
+      let rec go (ps : List DDP.AliasMatch.Pat) (bs : List DDP.AliasMatch.Binding) (pos : Nat) (out : List String) : List String :=
+        match ps, bs with
+        | [], _ => out
+        | .word _ :: ps, bs => go ps bs (pos + 1) out
+        | .param _ :: ps, b :: bs => go ps bs (pos + b.2.length) (out ++ [s!"{b.1}={pos}+{b.2.length}"])
+        | .param _ :: _, [] => out
+      ";".intercalate (go pat bs 0 [])
+    let cut := "cut " ++ showB (DDP.AliasMatch.cutArgs pat toks)
+    match DDP.AliasMatch.matchPat pat toks with
+    | some (bs, rest) => s!"match rest={rest.length} {showB bs} {cut}"
+    | none => s!"nomatch {cut}"
   | _ => "bad-request"
 
 /-- `ledger <ptr,old,new,result;…>`: the model's verdict on a trace of ddp_reallocate calls -/
@@ -522,6 +574,156 @@ def showInts (l : List Int) : String := if l.isEmpty then "-" else ",".intercala
 def showNats (l : List Nat) : String := if l.isEmpty then "-" else ",".intercalate (l.map toString)
 def showOpt (o : Option (List Int)) : String := match o with | some l => showInts l | none => "domain"
 def showBool (b : Bool) : String := if b then "1" else "0"
+
+/-- Kommazahlen travel as whole numbers of eighths; results are printed as exact decimals when they are
+dyadic with a denominator ≤ 1024 (then `%.16g` of the double prints the same digits), else `inexact` -/
+def ratOfEighths (k : Int) : Rat := (k : Rat) / 8
+def parseRats (t : String) : List Rat := (parseInts t).map ratOfEighths
+def parseRat (t : String) : Rat := ratOfEighths (parseInts t).head!
+def parseTexts (ts : String) : List (List Nat) := if ts == "leer" then [] else (ts.splitOn "/").map parseNats
+def showTexts (l : List (List Nat)) : String := if l.isEmpty then "leer" else "/".intercalate (l.map showNats)
+def log2Exact (n : Nat) : Option Nat := (List.range 11).find? fun k => 2 ^ k == n
+def showRat (q : Rat) : String :=
+  match log2Exact q.den with
+  | none => "inexact"
+  | some k =>
+    let scaled := q.num.natAbs * 5 ^ k
+    let p := 10 ^ k
+    let ip := scaled / p
+    let fp := scaled % p
+    let digits := (toString (p + fp)).drop 1
+    let frac := (digits.toString.dropEndWhile (· == '0')).toString
+    (if q.num < 0 then "-" else "") ++ toString ip ++ (if frac == "" then "" else "." ++ frac)
+def showRats (l : List Rat) : String :=
+  let parts := l.map showRat
+  if parts.contains "inexact" then "inexact" else if parts.isEmpty then "-" else ",".intercalate parts
+def showOptRat (o : Option Rat) : String := match o with | some q => showRat q | none => "domain"
+def showOptRats (o : Option (List Rat)) : String := match o with | some q => showRats q | none => "domain"
+def showOptNat (o : Option Nat) : String := match o with | some q => toString q | none => "domain"
+def showOptInt (o : Option Int) : String := match o with | some q => toString q | none => "domain"
+def showOptNats (o : Option (List Nat)) : String := match o with | some q => showNats q | none => "domain"
+def int1 (t : String) : Int := (parseInts t).head!
+
+def zeichenPred (name : String) : Option (Nat → Bool) :=
+  open DDP.Duden in
+  match name with
+  | "istLeer" => some istLeerZ | "istGross" => some istGrossZ | "istKlein" => some istKleinZ
+  | "istLeerzeichen" => some istLeerzeichenZ | "istZiffer" => some istZiffer | "istKontroll" => some istKontrollZ
+  | "istLateinisch" => some istLateinischZ | "istLateinischOderZahl" => some istLateinischOderZahlZ
+  | "istDeutsch" => some istDeutschZ | "istDeutschOderZahl" => some istDeutschOderZahlZ
+  | _ => none
+
+def cmdDuden2 (args : List String) : String :=
+  open DDP.Duden in
+  match args with
+  -- lists
+  | ["leere", l] => showInts (leere (parseInts l))
+  | ["einfuegenBereich", l, i, r] => showOpt (einfuegenBereich (parseInts l) i.toNat! (parseInts r))
+  | ["voranstellenListe", l, o] => showInts (voranstellenListe (parseInts l) (parseInts o))
+  | ["elementweiseDifferenz", a, b] => showOpt (elementweise (· - ·) (parseInts a) (parseInts b))
+  | ["elementweiseQuotient", a, b] => showOptRats (elementweiseQuotient (parseInts a) (parseInts b))
+  | ["absteigend", a, b] => showInts (absteigend (int1 a) (int1 b))
+  | ["summeK", l] => showRat (summeK (parseRats l))
+  | ["produktK", l] => showRat (produktK (parseRats l))
+  | ["linspace", a, b, n] => showOptRats (linspace (parseRat a) (parseRat b) n.toNat!)
+  | ["aneinandergehaengt", l] => showNats (aneinandergehaengt (parseNats l))
+  | ["verketteTexte", ts] => showNats (verketteTexte (parseTexts ts))
+  | ["elementweiseVerketten", a, b] => (match elementweiseVerketten (parseTexts a) (parseTexts b) with | some r => showTexts r | none => "domain")
+  | ["tausche", a, b] => let r := tausche (int1 a) (int1 b); s!"{r.1},{r.2}"
+  -- texts
+  | ["ersterBuchstabe", t] => showOptNat (ersterBuchstabe (parseNats t))
+  | ["nterBuchstabe", n, t] => showOptNat (nterBuchstabe n.toNat! (parseNats t))
+  | ["letzterBuchstabe", t] => showOptNat (letzterBuchstabe (parseNats t))
+  | ["entferneVorne", t, n] => showNats (entferneVorne (parseNats t) (int1 n))
+  | ["entferneHinten", t, n] => showNats (entferneHinten (parseNats t) (int1 n))
+  | ["anzahlNichtUeberlappend", t, u] => toString (anzahlNichtUeberlappend (parseNats t) (parseNats u))
+  | ["beginntMitBuchstabe", t, c] => showBool (beginntMitBuchstabe (parseNats t) c.toNat!)
+  | ["endetMitBuchstabe", t, c] => showBool (endetMitBuchstabe (parseNats t) c.toNat!)
+  | ["textAnfuegen", t, e] => showNats (textAnfuegen (parseNats t) (parseNats e))
+  | ["textVoranstellen", t, e] => showNats (textVoranstellen (parseNats t) (parseNats e))
+  | ["fuelleText", t, c] => showNats (fuelleText (parseNats t) c.toNat!)
+  | ["buchstaben", t] => showNats (buchstaben (parseNats t))
+  | ["buchstabenTexte", t] => showTexts (buchstabenTexte (parseNats t))
+  | ["indexVonBuchstabe", t, c] => toString (indexVonBuchstabe (parseNats t) c.toNat!)
+  | ["textLeer", t] => showBool (parseNats t).isEmpty
+  | ["textIstZahl", t] => showBool (textIstZahl (parseNats t))
+  | ["grossD", t] => showNats ((parseNats t).map grossBuchstabe)
+  | ["kleinD", t] => showNats ((parseNats t).map kleinBuchstabe)
+  | ["verbindenZahl", l, c] => showNats (verbindenZahl (parseInts l) c.toNat!)
+  | ["verbindenBuchstabe", l, c] => showNats (verbindenBuchstabe (parseNats l) c.toNat!)
+  | ["verbindenWahr", l, c] => showNats (verbindenWahr ((parseNats l).map (· != 0)) c.toNat!)
+  | ["levenshtein", a, b] => toString (levenshtein (parseNats a) (parseNats b))
+  | ["spalteMenge", t, m] => showTexts (spalteMenge (parseNats t) (parseNats m))
+  | ["worte", t] => showTexts (worte (parseNats t))
+  | ["bytes", t] => showNats (bytes (parseNats t))
+  | ["vonBytes", b] => showOptNats (vonBytes (parseNats b))
+  -- characters
+  | ["ztab", name, codes] => (match zeichenPred name with
+      | some p => String.join ((parseNats codes).map fun c => showBool (p c))
+      | none => "bad-request")
+  | ["zmap", "gross", codes] => showNats ((parseNats codes).map grossBuchstabe)
+  | ["zmap", "klein", codes] => showNats ((parseNats codes).map kleinBuchstabe)
+  | ["asciiGroesser", a, b] => showBool (asciiGroesser a.toNat! b.toNat!)
+  | ["asciiKleiner", a, b] => showBool (asciiKleiner a.toNat! b.toNat!)
+  -- numbers
+  | ["minZahl"] => toString minZahl
+  | ["maxZahl"] => toString maxZahl
+  | ["million", n] => toString (million (int1 n))
+  | ["dutzend", n] => toString (dutzend (int1 n))
+  | ["bruch", n, d] => showRat (bruch (int1 n) d.toNat!)
+  | ["hexZuZahl", t] => showOptNat (hexZuZahl (parseNats t))
+  | ["zahlZuHex", z] => showNats (zahlZuHex (int1 z))
+  | ["clamp", w, lo, hi] => toString (clamp (int1 w) (int1 lo) (int1 hi))
+  | ["maxK", a, b] => showRat (maxK (parseRat a) (parseRat b))
+  | ["minK", a, b] => showRat (minK (parseRat a) (parseRat b))
+  | ["max3K", a, b, c] => showRat (max3K (parseRat a) (parseRat b) (parseRat c))
+  | ["min3K", a, b, c] => showRat (min3K (parseRat a) (parseRat b) (parseRat c))
+  | ["clampK", w, lo, hi] => showRat (clampK (parseRat w) (parseRat lo) (parseRat hi))
+  | ["signK", a] => toString (signK (parseRat a))
+  | ["floorK", a] => showRat (floorK (parseRat a))
+  | ["ceilK", a] => showRat (ceilK (parseRat a))
+  | ["truncK", a] => showRat (truncK (parseRat a))
+  | ["rundenK", a, n] => showRat (rundenK (parseRat a) n.toNat!)
+  | ["quadrat", a] => showRat (quadrat (parseRat a))
+  | ["ganzeZahl", a] => showBool (ganzeZahl (parseRat a))
+  | ["geradeZahl", a] => showBool (geradeZahl (int1 a))
+  | ["geradeKommazahl", a] => showBool (geradeKommazahl (parseRat a))
+  | ["fakultaet", n] => toString (fakultaet n.toNat!)
+  | ["teiler", z] => showNats (teiler z.toNat!)
+  | ["ggTZ", a, b] => toString (ggTZ (int1 a) (int1 b))
+  | ["kgVZ", a, b] => toString (kgVZ (int1 a) (int1 b))
+  -- statistics
+  | ["hoechsteZ", l] => showOptInt (hoechsteZ (parseInts l))
+  | ["kleinsteZ", l] => showOptInt (kleinsteZ (parseInts l))
+  | ["hoechsteK", l] => showOptRat (hoechsteK (parseRats l))
+  | ["kleinsteK", l] => showOptRat (kleinsteK (parseRats l))
+  | ["mindestens", x, l] => showOptRat (mindestens (parseRat x) (parseRats l))
+  | ["hoechstens", x, l] => showOptRat (hoechstens (parseRat x) (parseRats l))
+  | ["zwischen", x, y, l] => showOptRat (zwischen (parseRat x) (parseRat y) (parseRats l))
+  | ["absoluteHaeufigkeit", l, x] => toString (absoluteHaeufigkeit (parseRats l) (parseRat x))
+  | ["relativeHaeufigkeit", l, x] => showOptRat (relativeHaeufigkeit (parseRats l) (parseRat x))
+  | ["mittelwert", l] => showOptRat (mittelwert (parseRats l))
+  | ["median", l] => showOptRat (median (parseRats l))
+  | ["modalwert", l] => showRats (modalwert (parseRats l))
+  | ["quantil", l, p] => showOptRat (quantil (parseRats l) (parseRat p))
+  | ["varianz", l] => showOptRat (varianz (parseRats l))
+  | ["standardabweichung", l] => (match varianz (parseRats l) with
+      | none => "domain"
+      | some v => match wurzel v with | some r => showRat r | none => "inexact")
+  | ["spannweite", l] => showOptRat (spannweite (parseRats l))
+  | ["interquartilabstand", l] => showOptRat (interquartilabstand (parseRats l))
+  | ["elementweiseSummeK", a, b] => showOptRats (elementweiseK (· + ·) (parseRats a) (parseRats b))
+  | ["elementweiseDifferenzK", a, b] => showOptRats (elementweiseK (· - ·) (parseRats a) (parseRats b))
+  | ["elementweiseProduktK", a, b] => showOptRats (elementweiseK (· * ·) (parseRats a) (parseRats b))
+  | ["logspace", a, b, n] => (match logspace (parseRat a) (parseRat b) n.toNat! with | some l => showRats l | none => "inexact")
+  | ["konstante", "maxKommazahl"] => s!"{maxKommazahl.num}/{maxKommazahl.den}"
+  | ["konstante", "minKommazahl"] => s!"{minKommazahl.num}/{minKommazahl.den}"
+  | ["konstante", "epsilonPos"] => s!"{epsilonPos.num}/{epsilonPos.den}"
+  | ["konstante", "epsilonNeg"] => s!"{epsilonNeg.num}/{epsilonNeg.den}"
+  | ["kovarianz", a, b] => showOptRat (kovarianz (parseRats a) (parseRats b))
+  | ["korrelation", a, b] => (match korrelation (parseRats a) (parseRats b) with | some r => showRat r | none => "inexact")
+  | ["bestimmtheitsmass", a, b] => (match bestimmtheitsmass (parseRats a) (parseRats b) with | some r => showRat r | none => "inexact")
+  | _ => "bad-request"
 
 def cmdDuden (args : List String) : String :=
   open DDP.Duden in
@@ -579,7 +781,7 @@ def cmdDuden (args : List String) : String :=
   | ["vergleiche", a, b] =>
     let v := vergleiche (parseNats a) (parseNats b)
     if v == 0 then "0" else if v > 0 then "+" else "-"
-  | _ => "bad-request"
+  | _ => cmdDuden2 args
 
 /-- `abi <name> <ret> <type:ref …>`: the C prototype of a foreign function (types Z K B W C T V N LZ LK LB LW LC LT S:<name>) -/
 def abiTy (t : String) : DDP.Spec.Ty :=
@@ -620,8 +822,10 @@ def dispatch (line : String) : String :=
   | "typos" :: args => cmdTypos args
   | "unify" :: args => cmdUnify args
   | "modinit" :: args => cmdModinit args
+  | "visible" :: args => cmdVisible args
   | "sortaliases" :: args => cmdSortAliases args
   | "resolve" :: args => cmdResolve args
+  | "aliasmatch" :: args => cmdAliasMatch args
   | "ledger" :: args => cmdLedger args
   | "static" :: args => cmdStatic args
   | "rangecheck" :: args => cmdRangeCheck args
